@@ -220,10 +220,26 @@ static void run_pure(void)
                     pres_free(&pr);
                 }
                 /* ---- history independence ---- */
-                int nh = MO.thorough ? 6 : 2;
+                int nh = MO.thorough ? 6 : 3;
                 for (int hI = 0; hI < nh; hI++) {
                     int other = -1; cfg_t oc = { EC_BACKEND_LIBERASURECODE_RS_VAND, 3 + hI, 2, 2, 0, CHKSUM_CRC32 };
                     if (hI & 1) other = lec_create(&oc);        /* another instance alive during the re-encode */
+                    if (hI % 3 == 2) {
+                        /* a second instance of this very configuration comes and goes while instances of other shapes of the same
+                         * backend are created: what instances of one shape may share must survive the departure of one of them */
+                        int twin = lec_create(&c);
+                        cfg_t o2 = c; o2.k = c.k > 2 ? c.k - 1 : c.k + 1; o2.m = c.m + (c.be == EC_BACKEND_FLAT_XOR_HD ? 0 : 3); if (o2.k + o2.m > 32) o2.m = 32 - o2.k;
+                        cfg_t o3 = { EC_BACKEND_LIBERASURECODE_RS_VAND, 3, 5, 5, 0, CHKSUM_NONE };
+                        int x2 = c.be == EC_BACKEND_FLAT_XOR_HD ? -1 : lec_create(&o2), x3 = lec_create(&o3);
+                        if (twin > 0) liberasurecode_instance_destroy(twin);
+                        cfg_t o4 = { c.be == EC_BACKEND_FLAT_XOR_HD ? EC_BACKEND_LIBERASURECODE_RS_VAND : c.be, 2, 10, 10, 0, CHKSUM_NONE };
+                        int x4 = lec_create(&o4);
+                        if (x2 > 0) liberasurecode_instance_destroy(x2);
+                        if (x3 > 0) liberasurecode_instance_destroy(x3);
+                        if (x4 > 0) liberasurecode_instance_destroy(x4);
+                        cfg_use(&c);
+                        mon_count("reencodes_after_a_twin_instance_left", 1);
+                    }
                     noise(&rc, 6 + hI * 5);
                     stripe_t s2;
                     snprintf(what, sizeof what, "re-encode after unrelated history #%d%s", hI, other > 0 ? " with another instance alive" : "");
